@@ -36,3 +36,21 @@ contract("monkeytype.db.base:CallTraceStoreLogger.log", props=["C17", "C09"], th
          params={"self": "StoreLogger", "trace": "Trace"}, result="none",
          ensures={"post:main-dropped": "implies(func_module(trace.func) == '__main__', self.traces is old(self.traces))",
                   "post:appended": "implies(func_module(trace.func) != '__main__', self.traces is append(old(self.traces), trace))"})
+
+# ---- the shipped defaults the properties name (a configuration class may override each of them; the tracer / CLI contracts are stated for any values)
+_TH2 = ["cli", "types", "values", "events", "path"]
+contract("monkeytype.config:Config.max_typed_dict_size", props=["C06"], theories=_TH2, params={"self": "Config"}, result="int",
+         # C06: the default limit is zero - TypedDict generation is off unless a configuration turns it on
+         ensures={"post:default-zero": "result == 0"})
+contract("monkeytype.config:Config.sample_rate", props=["C18"], theories=_TH2, params={"self": "Config"}, result="Opt[int]",
+         # C18: sampling is unset by default: every call is traced
+         ensures={"post:default-unset": "result is None"})
+contract("monkeytype.config:Config.code_filter", props=["C17"], theories=_TH2, params={"self": "Config"}, result="Opt[Filter]",
+         ensures={"post:default-none": "result is None"})
+contract("monkeytype.config:Config.query_limit", props=["C09", "C14"], theories=_TH2, params={"self": "Config"}, result="int",
+         ensures={"post:default": "result == 2000"})
+contract("monkeytype.config:Config.type_rewriter", props=["C07"], theories=_TH2, params={"self": "Config"}, result="Rewriter",
+         ensures={"post:default-noop": "is_noop(result)"})
+contract("monkeytype.config:DefaultConfig.code_filter", props=["C17"], theories=_TH2, params={"self": "Config"}, result="Filter",
+         # C17: the default configuration filters with default_code_filter (proved against the path specification)
+         ensures={"post:default-filter": "result is default_code_filter"})
